@@ -34,6 +34,7 @@ def gen(rng, i, tier):
         max_depth=rng.choice([3, 6, 10]), neg_src_rs=0.1, dead=rng.choice([0.0, 0.3]), sleep=0.7, iq=0.7,
         rails=rng.choice([0.0, 0.4]),
     )
+    spec = _mux_layout(rng, spec)
     ta = rng.choice([25.0, round(rng.uniform(-60, 125), 1), float(rng.randint(-60, 125))])
     if rng.random() < 0.15:
         spec = G.scale_currents(spec, 10 ** rng.uniform(-6, 5))  # uA-class ... kA-class systems
@@ -77,3 +78,14 @@ def run(ctx, case):
 
 def finish(ctx):
     _rows.repo_tests_under_monitor(ctx, ACCEPT)
+
+
+def _mux_layout(rng, spec):
+    """One case in five: a mux-centred layout (inputs below other components, per-input rs, tabulated ig, random
+    live/dead input pattern) shared with C05, so that mux rows running from a NON-first input are judged here too."""
+    if rng.random() >= 0.2:
+        return spec
+    from . import c05
+
+    lay = c05.layout(rng, rng.choice([2, 3, 4]))
+    return c05.realise(lay, [rng.choice([0, 1]) for _ in range(lay["k"])])
